@@ -318,6 +318,121 @@ fn oracle_of(taps: &[String], deferred_pool: &mut Option<String>, is_client: boo
     (oracle, visit)
 }
 
+enum Choice { Issue(usize, Req), Advance(u64), Role(String) }
+
+/// Performs one chosen step on the real cache and prints it (event line with the oracle taps; result, positions, snapshot).
+fn perform(world: &mut World, choice: &Choice, sink: &mut Sink) -> Result<(), String> {
+    let (line, taps, finished_client): (String, Vec<String>, Option<usize>) = match choice {
+        Choice::Issue(client, req) => {
+            world.issue(*client, req);
+            (format!("B issue {} {}", client, req.text()), vec![], None)
+        }
+        Choice::Advance(delta) => {
+            world.clock.0.fetch_add(*delta, Ordering::SeqCst);
+            (format!("B advance {}", delta), vec![], None)
+        }
+        Choice::Role(role) => {
+            let role = role.as_str();
+            let is_client = role.starts_with('c') && role != "consumer";
+            if is_client { let c: usize = role[1..].parse().unwrap(); if World::at(role) == "client.idle" { world.pending_job[c] = false; } }
+            let was_at = World::at(role);
+            let taps = world.act(role)?;
+            if is_client {
+                let c: usize = role[1..].parse().unwrap();
+                if world.is_getref[c] {
+                    if was_at == "store.get" && World::at(role) == "pool.add" {
+                        let shard = world.cache.verif_store_shard_of(&world.current_key[c].unwrap_or(0));
+                        world.ref_readers.push((role.to_string(), shard));
+                    } else if was_at == "pool.add" {
+                        world.ref_readers.retain(|(owner, _)| owner != role);
+                    }
+                }
+            }
+            let name = if is_client { format!("client {}", &role[1..]) } else { role.to_string() };
+            (format!("B {}", name), taps, if is_client { Some(role[1..].parse().unwrap()) } else { None })
+        }
+    };
+    let (mut oracle, visit) = match finished_client {
+        Some(c) => { let mut deferred = world.deferred_pool[c].take(); let r = oracle_of(&taps, &mut deferred, true); world.deferred_pool[c] = deferred; r }
+        None => { let mut none = None; oracle_of(&taps, &mut none, false) }
+    };
+    if line == "B sweeper" { if let Some(id) = visit { oracle.push_str(&format!(" visit={}", id)); } }
+    let result = match finished_client {
+        Some(c) if World::at(&format!("c{}", c)) == "client.idle" => world.take_result(c).map(|r| format!("c{}:{}", c, r)).unwrap_or("-".to_string()),
+        _ => "-".to_string(),
+    };
+    writeln!(sink.input, "{}{}", line, oracle).unwrap();
+    writeln!(sink.implementation, "R {} | {} | {}", result, world.pcs(), world.snapshot()).unwrap();
+    Ok(())
+}
+
+fn parse_opt<T: std::str::FromStr>(text: &str) -> Option<T> { if text == "-" { None } else { text.parse().ok() } }
+
+fn parse_req(tokens: &[&str]) -> Option<Req> {
+    Some(match (tokens.first().copied()?, tokens.len()) {
+        ("putw", 5) => Req::PutW(tokens[1].parse().ok()?, tokens[2].parse().ok()?, tokens[3].parse().ok()?, parse_opt(tokens[4])),
+        ("delete", 2) => Req::Delete(tokens[1].parse().ok()?),
+        ("get", 2) => Req::Get(tokens[1].parse().ok()?),
+        ("getref", 2) => Req::GetRef(tokens[1].parse().ok()?),
+        ("weight", 1) => Req::Weight,
+        ("shutdown", 1) => Req::Shutdown,
+        ("upsert", 6) => Req::Upsert(tokens[1].parse().ok()?, parse_opt(tokens[2]), parse_opt(tokens[3]), parse_opt(tokens[4]), tokens[5] == "1"),
+        _ => return None,
+    })
+}
+
+/// Replays recorded Layer B histories (`BC` line, then `B` lines; the oracle suffixes are ignored — they are re-tapped):
+/// the SCHEDULE is replayed exactly, action by action. A step whose thread is not enabled (or not where the recording
+/// had it) ends the case there: the prefix is still a genuine history of the real crate.
+pub fn run_script(path: &str, out: &str) -> bool {
+    let text = match std::fs::read_to_string(path) { Ok(text) => text, Err(_) => return false };
+    let mut sink = Sink::new(out);
+    let mut cases: Vec<Vec<String>> = Vec::new();
+    for line in text.lines() {
+        if line.starts_with("# case") || cases.is_empty() { cases.push(Vec::new()); }
+        cases.last_mut().unwrap().push(line.to_string());
+    }
+    for lines in cases {
+        let cfg_line = match lines.iter().find(|l| l.starts_with("BC ")) { Some(line) => line.clone(), None => continue };
+        let field = |name: &str| -> Option<String> { cfg_line.split(' ').find_map(|t| t.strip_prefix(&format!("{}=", name)).map(|v| v.to_string())) };
+        let num = |name: &str| -> u64 { field(name).and_then(|v| v.parse().ok()).unwrap_or(0) };
+        let cfg = Cfg { max: field("max").and_then(|v| v.parse().ok()).unwrap_or(10), shards: num("shards") as usize, cmdcap: num("cmdcap") as usize, pool: num("pool") as usize, buf: num("buf") as usize,
+            counters: num("counters"), hash: num("hash"), wbase: num("wbase") as i64, wmod: num("wmod").max(1), now: num("now"), clients: num("clients").max(1) as usize };
+        let extended = cfg_line.contains(" sshard=");
+        let header = lines.iter().find(|l| l.starts_with("# case")).cloned().unwrap_or("# case conc script".to_string());
+        sink.both(&header);
+        let mut world = match World::new(cfg.clone(), extended) { Ok(world) => world, Err(why) => { sink.both(&format!("# engine-start-failed {}", why)); sink.flush(); return false; } };
+        writeln!(sink.input, "{}", world.cfg_line()).unwrap();
+        writeln!(sink.implementation, "R init | {} | {}", world.pcs(), world.snapshot()).unwrap();
+        let mut hang = None;
+        for line in lines.iter().filter(|l| l.starts_with("B ")) {
+            let tokens: Vec<&str> = line.split(' ').filter(|t| !t.contains('=') && !t.starts_with('#')).collect();
+            let choice = match tokens.get(1).copied() {
+                Some("issue") => match (tokens.get(2).and_then(|c| c.parse::<usize>().ok()), parse_req(&tokens[3.min(tokens.len())..])) {
+                    (Some(client), Some(req)) if client < cfg.clients && !world.pending_job[client] && World::at(&format!("c{}", client)) == "client.idle" => Choice::Issue(client, req),
+                    _ => { sink.both(&format!("# script-cut {}", line.replace(' ', "_"))); break; }
+                },
+                Some("advance") => Choice::Advance(tokens.get(2).and_then(|d| d.parse().ok()).unwrap_or(0)),
+                Some("client") => Choice::Role(format!("c{}", tokens.get(2).copied().unwrap_or("0"))),
+                Some(role @ ("worker" | "sweeper" | "consumer")) => Choice::Role(role.to_string()),
+                _ => { sink.both(&format!("# script-cut {}", line.replace(' ', "_"))); break; }
+            };
+            if let Choice::Role(role) = &choice { if !world.enabled(role) { sink.both(&format!("# script-cut {}", line.replace(' ', "_"))); break; } }
+            if let Err(why) = perform(&mut world, &choice, &mut sink) { hang = Some(why); break; }
+        }
+        if let Some(why) = hang {
+            sink.both(&format!("# hang {}", why.replace(' ', "_")));
+            sink.flush();
+            std::process::exit(3);
+        }
+        let panics: Vec<String> = std::mem::take(&mut *crate::PANIC_LOG.lock().unwrap());
+        for panic in panics { sink.both(&format!("# panic {}", panic)); }
+        if let Err(why) = world.finish() { sink.both(&format!("# hang at-finish {}", why.replace(' ', "_"))); sink.flush(); std::process::exit(3); }
+    }
+    sink.flush();
+    true
+}
+
 pub fn run(seed: u64, out: &str, args: &[String]) -> bool {
     let extended = args.iter().any(|a| a == "--ext");
     let cases: u64 = args.iter().position(|a| a == "--cases").and_then(|i| args.get(i + 1)).and_then(|s| s.parse().ok()).unwrap_or(10);
@@ -368,7 +483,7 @@ pub fn run(seed: u64, out: &str, args: &[String]) -> bool {
                 pick
             };
             step += 1;
-            let (line, taps, finished_client): (String, Vec<String>, Option<usize>) = match choice.as_str() {
+            let choice = match choice.as_str() {
                 "issue" => {
                     let client = rng.pick(&idle);
                     let key = rng.below(keys);
@@ -394,49 +509,12 @@ pub fn run(seed: u64, out: &str, args: &[String]) -> bool {
                             Req::Upsert(key, value.or(Some(next_value)), explicit, ttl2, remove)
                         }
                     } };
-                    world.issue(client, &req);
-                    (format!("B issue {} {}", client, req.text()), vec![], None)
+                    Choice::Issue(client, req)
                 }
-                "advance" => {
-                    let delta = rng.pick(&[1u64, 999_999_999, 1_000_000_000, 2_000_000_000, 5_000_000_000]);
-                    world.clock.0.fetch_add(delta, Ordering::SeqCst);
-                    (format!("B advance {}", delta), vec![], None)
-                }
-                role => {
-                    let is_client = role.starts_with('c') && role != "consumer";
-                    if is_client { let c: usize = role[1..].parse().unwrap(); if World::at(role) == "client.idle" { world.pending_job[c] = false; } }
-                    let was_at = World::at(role);
-                    match world.act(role) {
-                        Ok(taps) => {
-                            if is_client {
-                                let c: usize = role[1..].parse().unwrap();
-                                if world.is_getref[c] {
-                                    if was_at == "store.get" && World::at(role) == "pool.add" {
-                                        let shard = world.cache.verif_store_shard_of(&world.current_key[c].unwrap_or(0));
-                                        world.ref_readers.push((role.to_string(), shard));
-                                    } else if was_at == "pool.add" {
-                                        world.ref_readers.retain(|(owner, _)| owner != role);
-                                    }
-                                }
-                            }
-                            let name = if is_client { format!("client {}", &role[1..]) } else { role.to_string() };
-                            (format!("B {}", name), taps, if is_client { Some(role[1..].parse().unwrap()) } else { None })
-                        }
-                        Err(why) => { hang = Some(why); continue; }
-                    }
-                }
+                "advance" => Choice::Advance(rng.pick(&[1u64, 999_999_999, 1_000_000_000, 2_000_000_000, 5_000_000_000])),
+                role => Choice::Role(role.to_string()),
             };
-            let (mut oracle, visit) = match finished_client {
-                Some(c) => { let mut deferred = world.deferred_pool[c].take(); let r = oracle_of(&taps, &mut deferred, true); world.deferred_pool[c] = deferred; r }
-                None => { let mut none = None; oracle_of(&taps, &mut none, false) }
-            };
-            if line == "B sweeper" { if let Some(id) = visit { oracle.push_str(&format!(" visit={}", id)); } }
-            let result = match finished_client {
-                Some(c) if World::at(&format!("c{}", c)) == "client.idle" => world.take_result(c).map(|r| format!("c{}:{}", c, r)).unwrap_or("-".to_string()),
-                _ => "-".to_string(),
-            };
-            writeln!(sink.input, "{}{}", line, oracle).unwrap();
-            writeln!(sink.implementation, "R {} | {} | {}", result, world.pcs(), world.snapshot()).unwrap();
+            if let Err(why) = perform(&mut world, &choice, &mut sink) { hang = Some(why); continue; }
         }
         if let Some(why) = hang {
             sink.both(&format!("# hang {}", why.replace(' ', "_")));
